@@ -25,6 +25,7 @@ def summarise(res):
                     "detail": (o.detail or "")[:1500] if o.detail else None,
                     "model": o.model, "trace": [list(t) for t in (o.trace or [])][-40:] if o.trace else None})
     return {"job": res.job.name, "props": list(res.job.props), "kind": res.job.kind, "impl": list(res.job.impl),
+            "functions": [list(x) for x in res.job.opts.get("under_contract", [res.job.impl])],
             "ref": list(res.job.ref) if res.job.ref else None,
             "obligations": obs, "paths": res.paths, "solver_s": round(res.solver_s, 3), "queries": res.queries,
             "wall_s": res.wall_s, "rounds": res.rounds, "repolls": res.repolls, "undecided": res.undecided,
@@ -49,6 +50,7 @@ def _run_one(args):
         res.mode = mode
         out = summarise(res)
         out["args"] = argspec(job)
+        out["opts"] = {"val_protocols": job.opts.get("val_protocols")}
     except Exception as e:      # engine crash: reported as checker error, never as a violation
         import traceback
         out = {"job": jobname, "props": list(job.props), "kind": job.kind, "impl": list(job.impl), "ref": None,
@@ -119,6 +121,8 @@ def attribute(job, ob):
         return props - {"C04", "C18"} or props
     if kind == "outcome-match":
         return ({"C01", "C02", "C19", "C16", "C10", "C13", "C14"} & props) or props
+    if kind == "event-match" and "C19" in props:
+        return props - {"C04", "C18"}
     if kind == "event-match":
         m = re.search(r"/event-match/(\w+)@[^~]*~(\w+)@", name)
         ik, rk = (m.group(1), m.group(2)) if m else ("?", "?")
@@ -148,6 +152,8 @@ def source_hashes(impl_specs, repo=None):
     cache = {}
     for modname, qual in impl_specs:
         path = os.path.join(root, modname + ".py")
+        if not os.path.exists(path):
+            continue
         if path not in cache:
             src = open(path).read()
             cache[path] = (src, ast.parse(src))
